@@ -6,7 +6,7 @@ from hypothesis import strategies as st
 
 from ..common import Violation, Discard, call
 from ..hyp import drive
-from .. import estimators as E, gen
+from .. import estimators as E, gen, observe
 
 RULE = ('generated training sets x relation: TRANSLATION (all 17; data and translation on the dyadic grid 2^-6 so that every '
         'difference is exact), within-pair SWAP at drawn positions (ITML, MMC, SDML; both pairs of a quadruplet for LSML), sample '
@@ -20,7 +20,8 @@ ASSUMPTIONS = ['tolerances: 1e-9 swaps / scaling / grid translations of tuple le
                'deviation caused by perturbing the original data by one ulp / a relative 1e-10 / 1e-9 (noise-floor control: flat optima make L-BFGS line searches branch on rounding noise), otherwise it is counted '
                'as numerically-sensitive',
                'cases with a neighbour-distance tie (relative gap < 1e-9) are outside the domain for LMNN, LFDA, SCML_Supervised',
-               'iterative learners run with few iterations; integer seeds are fixed across the two fits']
+               'iterative learners run with few iterations; integer seeds are fixed across the two fits',
+               'NCA / MLKR: the captured objective and gradient are compared at the same L on original and transformed data (tight), and the fit-level comparison is asserted only when L-BFGS-B took the same number of iterations and evaluations on both']
 
 REL = {
     'translation': list(E.ALL),
@@ -167,8 +168,35 @@ def check_c19(case, stats):
     if isinstance(r, Exception):
       raise Discard('SDML RuntimeError (specified outcome)')
     return est
-  e1 = fit(X)
-  e2 = fit(X2, swap, perm)
+  lbfgs = name in ('NCA', 'MLKR')
+  if lbfgs:
+    with observe.record_minimize(name.lower()) as rec1:
+      e1 = fit(X)
+    with observe.record_minimize(name.lower()) as rec2:
+      e2 = fit(X2, swap, perm)
+    # objective-level clause (deterministic): the function handed to the optimiser must be the same function of L
+    # for the original and the transformed data, and the start points must agree
+    f1, a1, f2, a2 = rec1['fun'], rec1['args'], rec2['fun'], rec2['args']
+    x0a, x0b = rec1['x0'], rec2['x0']
+    if np.abs(x0a - x0b).max() > 1e-6 * max(np.abs(x0a).max(), 1e-300):
+      raise Violation('C19/%s/%s/initialisation' % (rel, name), 'start points differ by %g relative' % (np.abs(x0a - x0b).max() / max(np.abs(x0a).max(), 1e-300)))
+    nfeat = X.shape[1]
+    for Lflat in (x0a, np.asarray(e1.components_).ravel(), x0a * 0.5 + 0.1):
+      v1, g1 = f1(Lflat.copy(), *a1)
+      v2, g2 = f2(Lflat.copy(), *a2)
+      Z2 = np.abs(X2.dot(Lflat.reshape(-1, nfeat).T)).max()
+      ftol = 1e-9 * max(1.0, abs(v1)) + 256 * 2.3e-16 * len(X) * max(Z2, 1.0) ** 2 * max(1.0, abs(v1))
+      if abs(v1 - v2) > ftol:
+        raise Violation('C19/%s/%s/objective' % (rel, name), 'objective at the same L: %r on the original data, %r on the transformed data' % (v1, v2))
+      gs = max(np.abs(g1).max(), 1e-300)
+      gtol = 1e-6 * gs + 1024 * 2.3e-16 * len(X) * nfeat * max(Z2, 1.0) ** 2 * max(np.abs(X2).max(), 1.0) * max(1.0, abs(v1))
+      if np.abs(np.asarray(g1) - np.asarray(g2)).max() > gtol:
+        raise Violation('C19/%s/%s/gradient' % (rel, name), 'gradient at the same L differs by %g (scale %g)' % (np.abs(np.asarray(g1) - np.asarray(g2)).max(), gs))
+    same_path = (rec1['result'].nit == rec2['result'].nit and rec1['result'].nfev == rec2['result'].nfev)
+  else:
+    e1 = fit(X)
+    e2 = fit(X2, swap, perm)
+    same_path = True
   d1 = np.asarray(e1.pair_distance(Q))
   d2 = np.asarray(e2.pair_distance(Q2)) * scale
   if not (np.isfinite(d1).all() and np.isfinite(d2).all()):
@@ -182,7 +210,13 @@ def check_c19(case, stats):
   else:
     tight = 1e-5
   cls = 'within-tolerance'
-  if dev > tight:
+  if dev > tight and not same_path:
+    # L-BFGS-B took a different number of iterations / function evaluations on the two data sets: its line search
+    # branched on rounding noise (flat optimum); the fit-level comparison says nothing then - the objective-level
+    # clause above has already compared the functions themselves
+    cls = 'optimiser-path-differs'
+    stats.inconclusive['L-BFGS path differs between the two fits (fit-level comparison not meaningful)'] += 1
+  elif dev > tight:
     # noise-floor control: how much do one-ulp perturbations of the ORIGINAL data move the model?
     worst = 0.0
     xs = float(np.abs(X).max())
@@ -194,7 +228,8 @@ def check_c19(case, stats):
         Xp = X + prs.randn(*X.shape) * xs * (1e-10 if k % 2 else 1e-9)
       ep = fit(Xp)
       worst = max(worst, float(np.abs(np.asarray(ep.pair_distance(Q)) - d1).max()) / ref)
-    if dev > 100 * worst + tight:
+    factor = 1000 if lbfgs else 100      # L-BFGS fits: the objective-level clause above is the sharp one
+    if dev > factor * worst + tight:
       raise Violation('C19/%s/%s' % (rel, name), 'learned distances change by %g relative under %s (tolerance %g, one-ulp control %g); options %r'
                       % (dev, rel, tight, worst, m['opts']))
     cls = 'numerically-sensitive'
